@@ -208,6 +208,17 @@ theorem split_join {r sepR : Rep} {s sep : Bytes} (h : Models r s) (hsep : Model
   rw [AslModel.Str.split, this] at hm
   simpa using hm
 
+/-- `split(sep, out)` / `split(out)` when the caller's output array itself holds the string being split (`out[k].split(sep, out)`,
+    `out[k].split(out)`) or the separator (`s.split(out[k], out)`): in bounds, and `out` ends up holding exactly the pieces of the
+    standard split of the OLD `out[k]` — whatever else the array held (repaired in 42a2190; before, the element was read after
+    `out.clear()` had destroyed it: `AslProofs.Str.splitElem_unrepaired_counterexample`) -/
+theorem split_into_own_array {out : List Rep} {ts : List Bytes} (h : AllModels out ts) (k : Nat) (hk : k < out.length) :
+    (∀ sep, sep ≠ [] → ∃ l t, ts[k]? = some t ∧ splitElem out k sep = some l ∧ AllModels l (splitAbs sep [] t)) ∧
+    (∃ l t, ts[k]? = some t ∧ splitWsElem out k = some l ∧ AllModels l (tokensAbs t)) ∧
+    (∀ r s, Models r s → (∀ t, ts[k]? = some t → t ≠ []) →
+      ∃ l t, ts[k]? = some t ∧ splitSepElem r out k = some l ∧ AllModels l (splitAbs t [] s)) :=
+  ⟨fun sep hs => splitElem_spec h k hk sep hs, splitWsElem_spec h k hk, fun _ _ hm hne => splitSepElem_spec hm h k hk hne⟩
+
 /-- `join` is interleaving with the separator -/
 theorem join_spec {sepR : Rep} {sep : Bytes} (hsep : Models sepR sep) {ps : List Rep} {parts : List Bytes}
     (hf : AllModels ps parts) : ∃ r', Rep.join sepR ps = some r' ∧
